@@ -443,6 +443,27 @@ pub fn run(rep: &'static Report) {
         }
         println!("  concurrent mixes [{}]: {} schedules so far", pname, total_sched);
     }
+    // negative control of the machinery: a thread that keeps a read guard on a map while inserting
+    // another key into the same map (harness code, not the repository) must be reported as a
+    // deadlock state when every key lands in one shard
+    {
+        set_placement(true);
+        let bad = Scenario {
+            name: "control: insert while holding a read guard of the same map".into(),
+            pre: vec![analyze("conftest.py", CONF2)],
+            threads: vec![vec![Op { desc: "CONTROL get + insert".into(), f: Arc::new(|db: &Arc<FixtureDatabase>| {
+                let g = db.definitions.get("gx");
+                db.definitions.insert("other_key".to_string(), vec![]);
+                drop(g);
+            }) }]],
+        };
+        let r = crate::e1::run_schedule(&bad, &[], 10_000);
+        let caught = matches!(r.outcome.abort, Some(vsched::Abort::Deadlock(_)));
+        rep.set("negative_control", json!({"scenario": bad.name, "reported_as_deadlock": caught}));
+        if !caught {
+            rep.machinery_error("negative control: a same-shard read→write re-acquisition was not reported as a deadlock state");
+        }
+    }
     // restore stock placement for part (b) (free-running threads)
     vsched::set_shard_amount(0);
     vsched::set_collide(false);
